@@ -75,8 +75,21 @@ pub fn gen_program(w: &mut Rng, o: &TreeOpts) -> Program {
         if w.chance(1, 2) {
             c1.push(atomic_goal(w, &scope, o));
         }
+        let mut clauses = vec![c1, c2];
+        // sometimes three or four clauses, one of which may fail statically
+        if w.chance(1, 3) {
+            let extra = 1 + w.below(2);
+            for _ in 0..extra {
+                let mut c = vec![atomic_goal(w, &scope, o)];
+                if w.chance(1, 5) {
+                    c.push(G::Fail);
+                }
+                let at = w.below(clauses.len() + 1);
+                clauses.insert(at, c);
+            }
+        }
         let at = w.below(goals.len() + 1);
-        goals.insert(at, G::Conde(vec![c1, c2]));
+        goals.insert(at, G::Conde(clauses));
     }
     let body = if hidden.is_empty() { goals } else { vec![G::Fresh(hidden, goals)] };
     Program { nq, defs: vec![], body }
